@@ -997,6 +997,20 @@ namespace
     }
 }
 
+#ifdef VF_FUZZ
+extern "C" int
+LLVMFuzzerTestOneInput(const std::uint8_t* data, std::size_t size)
+{
+    return fuzz_one("h_erode", grid_name, "C13", data, size,
+                    [](Runner& R, Rng& rng, const std::string& prop)
+                    {
+                        if (prop == "C14" || (prop == "all" && family == Family::raster && rng.chance(0.3)))
+                            adi_case(R, rng, 9);
+                        else
+                            spl_case(R, rng, 8);
+                    });
+}
+#else
 int
 main(int argc, char** argv)
 {
@@ -1020,3 +1034,4 @@ main(int argc, char** argv)
                              spl_case(R_, rng, max_side);
                      });
 }
+#endif
